@@ -27,7 +27,11 @@ EMPTY: FrozenSet[str] = frozenset()
 
 
 class Deps:
-    def __init__(self, cfg: CFG, params: Iterable[str], out_param_calls: Optional[Set[str]] = None):
+    def __init__(self, cfg: CFG, params: Iterable[str], out_param_calls: Optional[Set[str]] = None,
+                 control: bool = False):
+        """control=True adds control dependence: a value assigned under a branch also depends on the roots of
+        the enclosing branch conditions (needed when a flag is set inside `if len(x) > 0:`)."""
+        self.control = control
         self.cfg = cfg
         self.params = list(params)
         self.out_param_calls = OUT_PARAM_CALLS if out_param_calls is None else out_param_calls
@@ -184,6 +188,9 @@ class Deps:
             return st
         if isinstance(s, ast.Assign):
             val = self.roots(s.value, st)
+            if self.control:
+                for (b, _lab) in self.cfg.lexical_guards(node):
+                    val = val | self.roots(b.cond, self.state_in.get(b.id, {}))
             self._effects_of_calls(s.value, st)
             for t in s.targets:
                 self._assign(t, val, st)
